@@ -32,6 +32,9 @@ DEFAULT = {
     "p_two_params": 0.35,      # utility has a second own parameter g (signature order of parameters and variables is shuffled)
     "p_next_in_constraint": 0.15,  # a constraint on the NEXT value of w: nw_constraint(next_w, kn) = kn <= next_w
     "p_a_tie": 0.12,           # the restricted choice a enters no payoff: exact ties between its labels wherever transitions do not separate them
+    "p_kwonly": 0.2,           # the own parameters of utility (and of next_w) are declared keyword-only: def utility(c, w, *, k)
+    "pad_states": 0,           # number of extra discrete states x0, x1, ... with one (sometimes two) labels and identity transitions:
+                               # models with many variables (17+) at the cost of few cells
     "p_near_tie": 0.15,        # large utility level + tiny dyadic premia on the discrete choices: near-ties (relative 1e-5)
     "p_dead_label": 0.0,       # (models without continuous state) the last label of h admits no choice: value -inf, reachable
     "p_state_only_filter": 0.15,  # the filter restricts states only: no restricted choice, every discrete choice unrestricted
@@ -156,9 +159,15 @@ def _rand_model_once(rng, P):  # noqa: C901, PLR0912, PLR0915
     if has_a:
         vars_.append(mkvar("a", "choice", "disc", na))
     if has_c:
-        vars_.append(mkvar("c", "choice", "lin", nc, 0, sc * (nc - 1)))
+        # c_stop: a fine consumption grid inside the range of w (long grids whose upper part is feasible for rich agents)
+        vars_.append(mkvar("c", "choice", "lin", nc, 0, P["c_stop"] if P.get("c_stop") else sc * (nc - 1)))
     if has_d:
-        vars_.append(mkvar("d", "choice", "lin", 3, 0, 1))
+        vars_.append(mkvar("d", "choice", "lin", sz.get("d", 3), 0, 1))
+    pads = []
+    for j in range(int(P.get("pad_states") or 0)):
+        role = "choice" if j % 4 == 3 else "state"
+        vars_.append(mkvar(f"x{j}", role, "disc", rng.choice([1, 1, 1, 2])))
+        pads.append(vars_[-1])
     ns = 1
     ncx = 1
     for v in vars_:
@@ -277,7 +286,7 @@ def _rand_model_once(rng, P):  # noqa: C901, PLR0912, PLR0915
     if has_d:
         terms.append(mul(ci(-2, 2), mul(var("d"), var("w"))))
         uargs.append("d")
-    disc = [v for v in vars_ if v["kind"] == "disc"]
+    disc = [v for v in vars_ if v["kind"] == "disc" and v not in pads]
     disc_all = list(disc)
     near_tie = False
     if disc:  # noqa: SIM102
@@ -343,6 +352,9 @@ def _rand_model_once(rng, P):  # noqa: C901, PLR0912, PLR0915
         terms.append(var("bonus"))
         uargs.append("bonus")
         feat["param_only_aux"] = True
+    for v in pads:      # every padding variable enters utility (its label) so that its axis is visible in the values
+        terms.append(mul(const(rng.choice([1, 2, 3])), var(v["name"])))
+        uargs.append(v["name"])
     two_params = has("p_two_params")
     if two_params:
         terms.append(var("g"))
@@ -354,6 +366,9 @@ def _rand_model_once(rng, P):  # noqa: C901, PLR0912, PLR0915
     params["utility"] = {"k": q(rng.randint(0, 2))} if has_w else {}
     if two_params:
         params["utility"]["g"] = q(rng.choice([F(1, 2), 3, -1, F(5, 2)]))
+    if params["utility"] and has("p_kwonly"):
+        funcs[-1]["kwonly"] = sorted(params["utility"])
+        feat["kwonly_params"] = True
 
     # ------------------------------------------------------------------ auxiliary functions
     inc_src = "a" if has_a else ("b" if has_b else None)
@@ -442,7 +457,7 @@ def _rand_model_once(rng, P):  # noqa: C901, PLR0912, PLR0915
             funcs.append(mkfunc("next_z", "next", ["z"], mul(var("z"), const(F(1, 2)))))
         params["next_z"] = {}
         feat["F3"] = has_w
-    dchoices = [v for v in vars_ if v["role"] == "choice" and v["kind"] == "disc"]
+    dchoices = [v for v in vars_ if v["role"] == "choice" and v["kind"] == "disc" and v not in pads]
     if has_h:
         if h_stoch:
             deps = ["h"]
@@ -487,6 +502,9 @@ def _rand_model_once(rng, P):  # noqa: C901, PLR0912, PLR0915
         funcs.append(mkfunc("d_constraint", "constraint", _shuf(rng, ["b", "h"], P), ["le", var("b"), add(var("h"), const(1))]))
         params["d_constraint"] = {}
 
+    for v in pads:
+        if v["role"] == "state":
+            funcs.append(mkfunc(f"next_{v['name']}", "next", [v["name"]], var(v["name"])))
     for f in funcs:
         params.setdefault(f["name"], {})
     if P["shuffle"]:
